@@ -14,8 +14,8 @@
    Everything else is about the Gallina model (C06/Model.v metadata + FSM, C07/Model.v
    marshal/unmarshal, heap with aliasing for Clone/Snapshot, validateCommand/Apply head).
    [bnd] is any upper bound of the shard-group durations in use ([bnd_ok]: at least the
-   built-in defaults, at most MaxInt64); [cmd_ok bnd] = the arguments have their Go types,
-   durations <= bnd, and CreateShardGroup timestamps >= MinInt64 + bnd. *)
+   built-in defaults, at most MaxInt64: take MaxInt64 for no restriction); [cmd_ok bnd] = the
+   arguments have their Go types (uint32 / int32 / int64) and durations <= bnd. *)
 From Verif Require Import C06.Model C06.Eqb C06.Spec C06.Proofs C06.ProofsCreate.
 From Verif Require Import C07.Model C07.Spec C07.ProofsMarshal C07.ProofsWf C07.ProofsHeap C07.ProofsSlice C07.Proofs.
 From VerifGen Require Import Consts.
@@ -29,10 +29,12 @@ Theorem source_facts :
   c07_clone_copies_node_lists = true /\ c07_snapshot_clones = true /\ c07_validate_checks_ext = true /\
   forallb (table_entry_ok c07_apply_ext) c07_validate_table = true /\
   (* every slice / map field of every struct reachable from Data is copied by its clone method *)
-  c07_clone_all_deep = true /\ forallb (fun b => b) c07_clone_fields_copied = true.
+  c07_clone_all_deep = true /\ forallb (fun b => b) c07_clone_fields_copied = true /\
+  (* store.remove decides to reset its own store from the raft peer list *)
+  c07_remove_resets_by_raft_peers = true.
 Proof.
   split; [reflexivity|]. split; [reflexivity|]. split; [reflexivity|]. split; [exact tables_consistent|].
-  split; reflexivity.
+  split; [reflexivity|]. split; reflexivity.
 Qed.
 Print Assumptions source_facts.
 
@@ -179,6 +181,28 @@ Theorem cloned_slice_frozen :
 Proof. intros A zero spare. exact (ProofsSlice.cloned_slice_frozen zero spare). Qed.
 Print Assumptions cloned_slice_frozen.
 
+(* ---------- removals ---------- *)
+
+(* store.remove (decision re-read from the source, see source_facts): removing another member
+   of the raft configuration never makes the executing node reset itself; its metadata is the
+   one after the DeleteMetaNode command.  (Raft membership itself is NOT modelled: the
+   quick-tier membership scenarios on real services are a monitor, observed not proved.) *)
+Theorem remove_keeps_metadata :
+  forall st id addr d',
+    In (ms_self st) (ms_peers st) -> In addr (ms_peers st) -> addr <> ms_self st ->
+    delete_meta_node (ms_data st) id = Ok d' ->
+    ms_data (remove_step true st id addr) = d' /\ In (ms_self st) (ms_peers (remove_step true st id addr)).
+Proof. exact ProofsSlice.remove_keeps_metadata. Qed.
+Print Assumptions remove_keeps_metadata.
+
+Theorem remove_by_meta_nodes_refuted :
+  let d := Dt 1 6 77 [Nd 1 "a:8091" "a:8089"; Nd 2 "b:8091" "b:8089"] [] [Db "db0" "" [] []] [] false 2 0 0 in
+  let st := MS "a:8089" (["a:8089"; "b:8089"]%string) d in
+  ms_data (remove_step false st 2 "b:8089") = init_data /\
+  ms_data (remove_step true st 2 "b:8089") = Dt 1 6 77 [Nd 1 "a:8091" "a:8089"] [] [Db "db0" "" [] []] [] false 2 0 0.
+Proof. exact ProofsSlice.remove_by_meta_nodes_refuted. Qed.
+Print Assumptions remove_by_meta_nodes_refuted.
+
 (* ---------- accepted requests can be applied ---------- *)
 
 (* for EVERY byte string and any protobuf decoder: accepted by validateCommand => Apply does
@@ -266,20 +290,30 @@ Theorem unmarshal_unpatched_trunc_refuted :
 Proof. exact ProofsMarshal.unmarshal_unpatched_trunc_refuted. Qed.
 Print Assumptions unmarshal_unpatched_trunc_refuted.
 
-(* OPEN FINDING (known_findings: C07:group-start-before-int64-range).  cmd_ok cannot be
-   weakened to C06's cmd_wf (Timestamp is any int64): a shard group created for a timestamp
-   within ShardGroupDuration of MinInt64 starts before 1677-09-21T00:12:43.145224192Z,
-   UnixNano wraps, and the restored value is a different one *)
+(* fix 78b5206 (by the C06 builder; formerly the open finding
+   C07:group-start-before-int64-range): CreateShardGroup now clamps StartTime to the int64
+   nanosecond range, C06's new_group follows it, and cmd_ok admits every int64 timestamp.  The
+   former witness - a group created for MinInt64+2 - is restored exactly; a value with a start
+   before the range (no longer reachable) still does not survive marshalling. *)
 Definition min_time_log : list entry :=
   [ En 2 1 (CCreateDataNode "h1:8086" "h1:8088"); En 3 1 (CCreateDatabase "db0" None);
     En 4 1 (CCreateShardGroup "db0" "autogen" (-9223372036854775806)) ]%string.
-Theorem snapshot_fidelity_min_time_refuted :
-  log_wf min_time_log /\
-  unmarshal (marshal (fun _ => 1%Z) (run true (fun _ => []) min_time_log)) <> run true (fun _ => []) min_time_log.
+Theorem snapshot_fidelity_min_time :
+  log_ok max_i64 min_time_log /\
+  all_groups (run true (fun _ => []) min_time_log) <> [] /\
+  unmarshal (marshal (fun _ => 1%Z) (run true (fun _ => []) min_time_log)) = run true (fun _ => []) min_time_log.
 Proof.
-  split; [repeat constructor; cbn; unfold c06_max_nano_time; lia|]. vm_compute. discriminate.
+  assert (L : log_ok max_i64 min_time_log) by (repeat constructor).
+  split; [exact L|]. split; [vm_compute; discriminate|].
+  apply (reachable_restored_exactly max_i64 true (fun _ => []) min_time_log (fun _ => 1%Z) bnd_ok_max L).
+  intros id. vm_compute. discriminate.
 Qed.
-Print Assumptions snapshot_fidelity_min_time_refuted.
+Print Assumptions snapshot_fidelity_min_time.
+
+Theorem marshal_out_of_range_refuted :
+  exists d, unmarshal (marshal (fun _ => 1%Z) d) <> d.
+Proof. exact marshal_roundtrip_unrestricted_refuted. Qed.
+Print Assumptions marshal_out_of_range_refuted.
 
 (* ---------- non-vacuity ---------- *)
 
@@ -298,6 +332,7 @@ Definition ex_log : list entry :=
    privilege, a truncated group, a deleted group; the bound can be MaxInt64 or 7 days *)
 Example ex_log_ok :
   bnd_ok max_i64 /\ bnd_ok 604800000000000 /\
+  forallb (fun e => cmd_ok max_i64 (e_cmd e)) ex_log = true /\
   forallb (fun e => cmd_ok 604800000000000 (e_cmd e)) ex_log = true /\
   wf 604800000000000 (run true (fun _ => []) ex_log) = true /\
   List.length (all_groups (run true (fun _ => []) ex_log)) = 3%nat /\
@@ -305,7 +340,7 @@ Example ex_log_ok :
   (forall id, m_time ((fun _ : N => 77%Z) id) <> 0%Z).
 Proof.
   split; [exact bnd_ok_max|]. split; [unfold bnd_ok, c06_sgd_long, c06_sgd_mid, c06_sgd_short, max_i64; lia|].
-  split; [vm_compute; reflexivity|]. split; [vm_compute; reflexivity|].
+  split; [vm_compute; reflexivity|]. split; [vm_compute; reflexivity|]. split; [vm_compute; reflexivity|].
   split; [vm_compute; reflexivity|]. split; [vm_compute; reflexivity|]. intros id. vm_compute. discriminate.
 Qed.
 
